@@ -1,4 +1,5 @@
 import PromProofs.RangeEval
+import PromProofs.AggK
 import PromModel.Suites.RangeSuite
 /-
   C27 — A range query equals instant queries at each step.
@@ -301,6 +302,133 @@ theorem range_order_witness :
     let e : Expr := .agg .topk1 false [] (.bin .mul false (.sel ⟨"m", [], 0, .none⟩) (.num 0))
     rangeQuery id 300 15 env e 10 10 10 ≠ rangeQuery List.reverse 300 15 env e 10 10 10 := by
   decide +kernel
+
+/-! ### topk / bottomk / limitk / limit_ratio with a per-step parameter (`rangeEvalAgg` + `aggregationK`) -/
+section AggK
+open Prom.AggK
+
+/-- Whichever way `aggregationK` leaves a step that is not the query's end timestamp — `k < 1`, `r == 0`, limitk
+    having filled every group, or all series visited — every cursor of the input matrix has been advanced
+    past the step (`advanceRemainingSeries`), for every parameter value, grouping and input. -/
+theorem aggK_every_exit_advances (op : KOp) (p : Rat) (n : Nat) (wo : Bool) (ls : List String) (groups : List Labels)
+    (ts : Int) (ss : List In) (acc : Vector) :
+    (stepLoop op p n wo ls groups false ts ss acc).1 = advance ts ss :=
+  stepLoop_advances op p n wo ls groups ts ss acc
+
+/-- One `aggregationK` call selects exactly what the per-step semantics selects from the samples at the heads of
+    the cursors (limitk's early exit skips only samples it would not have taken). -/
+theorem aggK_step_eq_instantCore (pk : Pick) (hn : pk.NilOk) (op : KOp) (p : Rat) (n : Nat) (wo : Bool) (ls : List String)
+    (groups : List Labels) (atEnd : Bool) (ts : Int) (ss : List In) :
+    stepOut pk op p n wo ls groups (stepLoop op p n wo ls groups atEnd ts ss []).2 =
+      instantCore pk op p n wo ls groups (headVec ts ss) :=
+  step_eq_instantCore pk hn op p n wo ls groups atEnd ts ss
+
+/-- `rangeEvalAgg` for topk/bottomk/limitk/limit_ratio with ANY sequence of per-step parameters: over an input
+    matrix whose point timestamps lie on the (strictly increasing) step grid, step `i` of the range evaluation
+    selects the same set of samples as an INSTANT query at that step, which sees only the series present there
+    (its own `len(inputMatrix)` and groups). -/
+theorem aggK_range_eq_instant (pk : Pick) (hn : pk.NilOk) (hc : pk.ClampOk) (op : KOp) (wo : Bool) (ls : List String)
+    (endTs : Int) (steps : List (Int × Rat)) (ss : List In)
+    (hs : (steps.map (·.1)).Pairwise (· < ·)) (hle : ∀ tp ∈ steps, tp.1 ≤ endTs)
+    (hg : ∀ s ∈ ss, onGrid (steps.map (·.1)) s) (i : Nat) (t : Int) (p : Rat) (hi : steps[i]? = some (t, p)) :
+    ∃ out, (rangeEvalAggK pk op wo ls endTs steps ss)[i]? = some out ∧
+      ∀ e, e ∈ out ↔ e ∈ instantK pk op p wo ls (vecAt t ss) := by
+  have hmem : (t, p) ∈ steps := List.mem_of_getElem? hi
+  unfold rangeEvalAggK
+  split
+  · rename_i hall
+    refine ⟨[], by simp [List.getElem?_map, hi], ?_⟩
+    intro e
+    have := allNil_earlyNil op steps hall (vecAt t ss).length (t, p) hmem
+    simp only at this
+    simp [instantK, instantCore, this]
+  · rw [rangeSteps_eq_cursorSpec pk hn op _ wo ls _ endTs steps ss hs hle, cursorSpec_eq_map pk op _ wo ls _ steps ss hs hg]
+    refine ⟨instantCore pk op p ss.length wo ls (groupsOf wo ls (ss.map (·.lbls))) (vecAt t ss),
+      by simp only [List.getElem?_map, hi, Option.map_some], ?_⟩
+    intro e
+    apply mem_instantCore_iff pk hn hc
+    · unfold vecAt
+      exact List.length_filterMap_le _ _
+    · intro x hx
+      unfold vecAt at hx
+      obtain ⟨s, hs', hx'⟩ := List.mem_filterMap.mp hx
+      cases hf : s.pts.find? (fun q => q.t == t) with
+      | none => simp [hf] at hx'
+      | some q =>
+        simp only [hf, Option.map_some, Option.some.injEq] at hx'
+        subst hx'
+        rw [groupsOf, mem_dedup]
+        exact List.mem_map.mpr ⟨s.lbls, List.mem_map_of_mem hs', rfl⟩
+
+/-- The executable choices used by the suite (ties: the earlier sample) satisfy the laws the theorem needs. -/
+theorem aggK_stablePick_laws : stablePick.NilOk ∧ stablePick.ClampOk := stablePick_laws
+
+/-- hypotheses are satisfiable, and the strategy is exercised: `k = 2, 1, 0, 2` over two series. -/
+example :
+    let ss : List In := [⟨[("i", "a")], [⟨0, 4⟩, ⟨60, 4⟩, ⟨120, 4⟩, ⟨180, 4⟩]⟩, ⟨[("i", "c")], [⟨0, 3⟩, ⟨120, 3⟩, ⟨180, 3⟩]⟩]
+    let steps : List (Int × Rat) := [(0, 2), (60, 1), (120, 0), (180, 2)]
+    (steps.map (·.1)).Pairwise (· < ·) ∧ (∀ s ∈ ss, onGrid (steps.map (·.1)) s) ∧
+      rangeEvalAggK stablePick .topk false [] 180 steps ss =
+        [[⟨[("i", "a")], 4⟩, ⟨[("i", "c")], 3⟩], [⟨[("i", "a")], 4⟩], [], [⟨[("i", "a")], 4⟩, ⟨[("i", "c")], 3⟩]] := by
+  refine ⟨by decide, ?_, by decide +kernel⟩
+  intro s hs
+  simp only [List.mem_cons, List.not_mem_nil, or_false] at hs
+  rcases hs with rfl | rfl <;> simp [onGrid]
+
+/-- Why every exit has to advance: testing `k < 1` BEFORE the series loop (nothing is consumed at such a step)
+    leaves every cursor on the skipped step, and every later step selects nothing — the range query then differs
+    from the instant queries at those steps. -/
+theorem aggK_hoisted_test_witness :
+    let ss : List In := [⟨[("i", "a")], [⟨0, 4⟩, ⟨60, 4⟩, ⟨120, 4⟩, ⟨180, 4⟩]⟩, ⟨[("i", "c")], [⟨0, 3⟩, ⟨120, 3⟩, ⟨180, 3⟩]⟩]
+    let steps : List (Int × Rat) := [(0, 2), (60, 1), (120, 0), (180, 2)]
+    (rangeStepsHoisted stablePick .topk 2 false [] [[]] 180 steps ss)[3]? = some [] ∧
+      instantK stablePick .topk 2 false [] (vecAt 180 ss) = [⟨[("i", "a")], 4⟩, ⟨[("i", "c")], 3⟩] := by
+  decide +kernel
+
+end AggK
+
+/-! ### the judge's attribution to finding C27-F2 is confined to non-literal parameters -/
+open Prom.RangeSuite in
+/-- An expression whose aggregation parameters are all literals (the fragment generated before parameters were
+    varied, and the only one in which the constant-parameter `fParams` path is taken) is never attributed to the
+    known finding about unpreprocessed parameters: a range-vs-instant mismatch there is always reported. -/
+theorem paramSkipped_of_literal : ∀ q : Q, q.paramsLiteral = true → q.paramSkipped = false
+  | .sel .. | .msel .. | .num _ | .str _ | .call0 _ => fun _ => rfl
+  | .subq _ _ _ _ e => fun h => by
+    simpa [Q.paramSkipped] using paramSkipped_of_literal e (by simpa [Q.paramsLiteral] using h)
+  | .call1 _ _ a => fun h => by
+    simpa [Q.paramSkipped] using paramSkipped_of_literal a (by simpa [Q.paramsLiteral] using h)
+  | .call2 _ _ a b => fun h => by
+    have h' : a.paramsLiteral = true ∧ b.paramsLiteral = true := by simpa [Q.paramsLiteral] using h
+    simp [Q.paramSkipped, paramSkipped_of_literal a h'.1, paramSkipped_of_literal b h'.2]
+  | .call3 _ _ a b c => fun h => by
+    have h' : (a.paramsLiteral = true ∧ b.paramsLiteral = true) ∧ c.paramsLiteral = true := by
+      simpa [Q.paramsLiteral] using h
+    simp [Q.paramSkipped, paramSkipped_of_literal a h'.1.1, paramSkipped_of_literal b h'.1.2, paramSkipped_of_literal c h'.2]
+  | .bin _ _ _ _ _ _ l r => fun h => by
+    have h' : l.paramsLiteral = true ∧ r.paramsLiteral = true := by simpa [Q.paramsLiteral] using h
+    simp [Q.paramSkipped, paramSkipped_of_literal l h'.1, paramSkipped_of_literal r h'.2]
+  | .agg _ _ _ e => fun h => by
+    simpa [Q.paramSkipped] using paramSkipped_of_literal e (by simpa [Q.paramsLiteral] using h)
+  | .neg e => fun h => by
+    simpa [Q.paramSkipped] using paramSkipped_of_literal e (by simpa [Q.paramsLiteral] using h)
+  | .aggP _ _ _ p e => fun h => by
+    cases p with
+    | num b =>
+      have := paramSkipped_of_literal e (by simpa [Q.paramsLiteral] using h)
+      by_cases hi : e.stepInv = true <;> simp [Q.paramSkipped, paramMistreated, Q.stepInv, Q.anyAt, this, hi]
+    | str b =>
+      have := paramSkipped_of_literal e (by simpa [Q.paramsLiteral] using h)
+      by_cases hi : e.stepInv = true <;> simp [Q.paramSkipped, paramMistreated, Q.stepInv, Q.anyAt, this, hi]
+    | _ => simp [Q.paramsLiteral] at h
+
+open Prom.RangeSuite in
+/-- … and the finding's two shapes are recognised: a varying parameter over an `@`-fixed operand, and an `@`
+    inside the parameter. -/
+example : (Q.aggP "topk" "-" "-" (.call1 "scalar" "-" (.sel "kk" "-" 0 "-")) (.sel "m1" "-" 0 "100")).paramSkipped = true ∧
+    (Q.aggP "topk" "-" "-" (.call1 "scalar" "-" (.sel "kk" "-" 0 "end")) (.sel "m1" "-" 0 "-")).paramSkipped = true ∧
+    (Q.aggP "topk" "-" "-" (.call1 "scalar" "-" (.sel "kk" "-" 0 "-")) (.sel "m1" "-" 0 "-")).paramSkipped = false := by
+  decide
 
 /-! ### the judge accepts equal outputs -/
 open Prom.RangeSuite in
